@@ -28,7 +28,9 @@ PROPS = {
     'C12': _p(['E6', 'E3', 'E4', 'E5', 'E7']),
     'C13': _p(['E9']),
     'C14': _p(['E1', 'E2', 'E3', 'E9']),
-    'C15': _p(['E7', 'E6', 'E3', 'E5']),
+    'C15': _p(['E7', 'E6', 'E3', 'E5', 'E8']),
+    'C16': _p(['E8']),
+    'C17': _p(['E8']),
 }
 
 ENGINE_INFO = {
@@ -44,6 +46,8 @@ ENGINE_INFO = {
            'kind': 'call histories: TLC model-checks the tokenizer switch/restore discipline and enumerates every history over an 18-call alphabet; each is replayed on the library with shared objects and compared with isolated runs'},
     'E7': {'path': 'harness/vf/engines/e7.py + spec/Validation.tla, TraceValidation.tla',
            'kind': 'validation matrix: entry point x violated preconditions x context enumerated by TLC, realised as calls, judged by TLC'},
+    'E8': {'path': 'harness/vf/engines/e8.py + spec/Converter.tla, TraceConverter.tla, Profiler.tla, TraceProfiler.tla',
+           'kind': 'converter and profiler over TLC-enumerated abstract columns (model-based exhaustive test generation, envelope judged by TLC)'},
     'E9': {'path': 'harness/vf/engines/e9.py + spec/TraceLaws.tla, TraceAPI.tla',
            'kind': 'relational laws (transposition, refinement, operator partition, join = filter + matcher, Position within Prefix and Size) on seeded random tables, tie-point witness tables and the bundled person/books data; joins on the random tables validated against the envelope'},
     'E3': {'path': 'harness/vf/engines/e3.py + spec/GenTables.tla, GenStrTables.tla, TraceAPI.tla, Semantics.tla',
